@@ -8,6 +8,8 @@ import Heathcliff.Proofs.C01V
 import Heathcliff.Proofs.C01X
 import Heathcliff.Proofs.C01Y
 import Heathcliff.Proofs.GenScalingSpec
+import Heathcliff.Proofs.GenRns8
+import Heathcliff.Proofs.GenRns19
 
 /- Property theorems only (statements verbatim; proofs are the helper lemmas of Heathcliff/Proofs). -/
 namespace HC.C01
@@ -587,5 +589,11 @@ theorem drvCtx_of_prng : type_of% @HC.drvCtx_of_prng := @HC.drvCtx_of_prng
 /-- the SHARP BFV margin on the inputs, 2·t·(B+1) ≤ Q·(1 − 2^-53) (written 2^54·t·(B+1) ≤ (2^53 − 1)·Q), implies `FreshEncOK l B` -/
 theorem mkLevel_freshEncOK_sharp : type_of% @HC.mkLevel_freshEncOK_sharp := @HC.mkLevel_freshEncOK_sharp
 theorem drv_bfv_encrypt_decrypt_inputs_sharp : type_of% @HC.drv_bfv_encrypt_decrypt_inputs_sharp := @HC.drv_bfv_encrypt_decrypt_inputs_sharp
+/-! ### translator tie, phase 4k: the two RNS back ends of decryption on the code GENERATED from src/util/rns.rs (Proofs/GenRns8.lean, GenRns19.lean) -/
+
+/-- BFV: the generated `RNSTool::decrypt_scale_and_round` returns `round(t·x̃/Q) mod t` under the BEHZ γ-condition (see `C10.gen_decrypt_scale_and_round_rounds`) -/
+theorem gen_decrypt_scale_and_round_rounds : type_of% @HC.gr_decrypt_scale_and_round_rounds := @HC.gr_decrypt_scale_and_round_rounds
+/-- BGV: the generated `RNSTool::decrypt_mod_t` returns the centred residue modulo t, provided the erased f64 rounding is exact (see `C10.gen_decrypt_mod_t_centred`) -/
+theorem gen_decrypt_mod_t_centred : type_of% @HC.gr_decrypt_mod_t_centred := @HC.gr_decrypt_mod_t_centred
 
 end HC.C01
